@@ -313,6 +313,39 @@ func registerIntrinsics(e *Engine) {
 	registerUnicode(in)
 
 	// ---- errors ----
+	// errors.As(err, &target) for a target of concrete pointer type: the first
+	// error in the Unwrap chain whose dynamic type is the target's type.
+	in["errors.As"] = func(p *Path, fr *frame, _ *ssa.Function, a []value) (value, bool) {
+		err := a[0].(iface)
+		tgt := a[1].(iface)
+		pt, ok := tgt.t.(*types.Pointer)
+		if !ok {
+			return nil, false
+		}
+		want := pt.Elem()
+		if _, isIface := want.Underlying().(*types.Interface); isIface {
+			return nil, false
+		}
+		for depth := 0; depth < 10; depth++ {
+			if err.t == nil {
+				return tFalse, true
+			}
+			if types.Identical(err.t, want) {
+				p.store(tgt.v, err.v)
+				return tTrue, true
+			}
+			m := p.findMethod(err.t, "Unwrap")
+			if m == nil {
+				return tFalse, true
+			}
+			next, isIface := p.callFunction(fr, m, []value{err.v}, nil).(iface)
+			if !isIface {
+				return nil, false
+			}
+			err = next
+		}
+		return tFalse, true
+	}
 	in["errors.Is"] = func(p *Path, _ *frame, _ *ssa.Function, a []value) (value, bool) {
 		err := a[0].(iface)
 		target := a[1].(iface)
